@@ -65,6 +65,9 @@ func runNative(pkg string, cases []replayCase, timeout time.Duration) ([]replayO
 	if dir == "" {
 		pkgName = "zlint"
 	}
+	if strings.HasPrefix(dir, "cmd/") {
+		pkgName = "main"
+	}
 	var tb bytes.Buffer
 	fmt.Fprintf(&tb, "package %s\n\nimport (\n\t\"fmt\"\n\t\"testing\"\n\tzz \"%s/zzverif\"\n)\n\n", pkgName, zlintMod)
 	fmt.Fprintf(&tb, "var zzReplayTable = map[string]func(){\n")
@@ -93,6 +96,19 @@ func runNative(pkg string, cases []replayCase, timeout time.Duration) ([]replayO
 	cmd := exec.Command("go", "test", "-v", "-vet=off", "-count=1", "-overlay", ovPath, "-run", "^TestZZReplay$", "-timeout", fmt.Sprintf("%ds", int(timeout.Seconds())), target)
 	cmd.Dir = repoV3
 	cmd.Env = append(os.Environ(), "GOFLAGS=-mod=mod", "GOPROXY=off", "GOSUMDB=off", "GOTOOLCHAIN=local", "ZZ_REPLAY="+casesPath)
+	if pkgName == "main" {
+		// a command's init() parses the process arguments: build the test binary and run it without any
+		bin := filepath.Join(tmp, "replay.test")
+		build := exec.Command("go", "test", "-c", "-vet=off", "-overlay", ovPath, "-o", bin, target)
+		build.Dir = repoV3
+		build.Env = cmd.Env
+		if bo, err := build.CombinedOutput(); err != nil {
+			return nil, string(bo), fmt.Errorf("cannot build the replay test binary: %v", err)
+		}
+		cmd = exec.Command(bin)
+		cmd.Dir = filepath.Join(repoV3, dir)
+		cmd.Env = build.Env
+	}
 	var out bytes.Buffer
 	cmd.Stdout = &out
 	cmd.Stderr = &out
@@ -235,6 +251,37 @@ func (c *Check) replayFindings() {
 		var cases []replayCase
 		fs := byPkg[pkg]
 		if strings.HasSuffix(pkg, "/cmd/zlint") {
+			// findings about flag processing (setLints) are replayed like any other harness; only doLint
+			// candidates need the differential run
+			var cli, plain []*Finding
+			for _, f := range fs {
+				if f.Func == "VerifC15DoLint" {
+					cli = append(cli, f)
+				} else {
+					plain = append(plain, f)
+				}
+			}
+			if len(plain) > 0 {
+				var pc []replayCase
+				for _, f := range plain {
+					pc = append(pc, replayCase{Func: f.Func, Pkg: f.Pkg, Nondet: f.Nondet, Model: f.Model})
+				}
+				outs, raw, err := runNative(pkg, pc, 5*time.Minute)
+				for i, f := range plain {
+					switch {
+					case err != nil || outs == nil:
+						f.Confirmed, f.ReplayOut = "unknown", "native replay failed: "+fmt.Sprint(err)+" "+lastLines(raw, 15)
+					case f.Kind == "assert" && containsStr(outs[i].Fails, f.Msg), f.Kind == "panic" && outs[i].Panic != "":
+						f.Confirmed, f.ReplayOut = "yes", outs[i].Raw
+					default:
+						f.Confirmed, f.ReplayOut = "no", outs[i].Raw+" "+lastLines(raw, 6)
+					}
+				}
+			}
+			fs = cli
+			if len(fs) == 0 {
+				continue
+			}
 			// candidates about the command-line tool are confirmed by the native differential run of the real doLint
 			fails, raw, err := runCLINative()
 			for _, f := range fs {
